@@ -311,6 +311,40 @@ def _free(kind, reply, opt, parents):
         return rt.ok()
 
 
+def _homevol(kind, reply, sort):
+    """the volume that holds the home trash has trash directories of its own ($topdir/.Trash-$uid, written by the
+    fallback of trash-put or by --trash-dir): their entries are offered like all others"""
+    with rt.untraced():
+        rt.begin(('home-volume', K.KINDS[kind], reply, sort))
+        nodes = [W.d('/h'), W.d('/r/w'), W.f('/v/keep', 'KEEP', 0o644, 800)]
+        nodes += K.trashed('/h/.local/share/Trash', 'a', '/r/w/a', '2020-01-01T00:00:00', K.KINDS[kind], 2000)
+        nodes += K.trashed('/.Trash-1000', 'b', 'r/w/b', '2020-01-02T00:00:00', K.KINDS[(kind + 1) % 6], 2020)
+        nodes += K.trashed('/v/.Trash-1000', 'c', 'w/c', '2020-01-03T00:00:00', 'file', 2040)
+        rp, want = [('0-1', [0, 1]), ('1', [1]), ('0', [0])][reply]
+        args = [['--sort', 'date'], ['--sort', 'path'], []][sort]
+        m, res = scen.run_model(W.W(mounts=K.MOUNTS, cwd='/r/w', nodes=nodes), [{'snap': '/'}, C('restore', args, scen.env(), stdin=[rp], cwd='/r/w'), {'snap': '/'}])
+        before, r, after = res
+        label = 'home-volume-own-trash-dir'
+        if r['exc']:
+            return rt.fail('C13:traceback:%s:%s' % (r['exc'].split(':')[0], label), r['exc'])
+        lst = K.restore_listing(r['out'])
+        if [p for (_, _, p) in lst] != ['/r/w/a', '/r/w/b']:
+            return rt.fail('C13:wrong-entries-offered:' + label, 'offered %r, expected /r/w/a (home trash) and /r/w/b (/.Trash-1000)' % (lst,))
+        for j, (loc, td, n) in enumerate([('/r/w/a', '/h/.local/share/Trash', 'a'), ('/r/w/b', '/.Trash-1000', 'b')]):
+            chosen = j in want
+            if chosen != (scen.sub(after, loc) is not None) or chosen != (scen.sub(after, td + '/files/' + n) is None):
+                return rt.fail('C13:selected-entry-not-restored:' + label if chosen else 'C13:unselected-entry-restored:' + label, 'index %d (%s), reply %r; exit %r stderr %r' % (j, loc, rp, r['exit'], r['err'][-200:]))
+        return rt.ok()
+
+
+def w_homevol(kind: int, reply: int, sort: int) -> str:
+    """
+    pre: 0 <= kind < 6 and 0 <= reply < 3 and 0 <= sort < 3
+    post: _ == ''
+    """
+    return _homevol(rt.sel(kind, 6), rt.sel(reply, 3), rt.sel(sort, 3))
+
+
 def w_free(kind: int, reply: int, opt: int, parents: int) -> str:
     """
     pre: 0 <= kind < 6 and 0 <= reply < 5 and 0 <= opt < 4 and 0 <= parents < 2
@@ -341,6 +375,8 @@ def obligations(tier):
     gparts = _prefix_parts(1, 3) if tier == 'quick' else _prefix_parts(2, 4)
     sparts = [('short', 3, 2)] if tier == 'quick' else _prefix_parts(1, 3)
     return kpair.obligations(tier) + [
+        CH('W_trash_dirs_of_the_home_volume', MOD, 'w_homevol', timeout=300, engine='W', regime='selector', encodes=K.RESTORE_FUNCS, stubs=K.STUBS,
+           bounds='entries in the home trash, in /.Trash-$uid of the same volume and on another volume; 6 kinds x 3 replies x 3 sort modes'),
         CH('W_free_destinations_x_options_x_parents', MOD, 'w_free', timeout=600, engine='W', regime='selector', encodes=K.RESTORE_FUNCS, stubs=K.STUBS,
            bounds='3 entries with free destinations (6 kind rotations) x 5 valid replies x 4 option sets (--overwrite, --sort) x parent directories present / gone'),
         CH('K_grammar_all_replies', MOD, 'k_grammar', timeout=t, partitions=gparts, twin=(tier == 'quick'),
